@@ -959,7 +959,7 @@ fn run_case(c: &Case) -> String {
     buf
 }
 
-fn main() {
+fn install_hook() {
     std::panic::set_hook(Box::new(|info| {
         let loc = info
             .location()
@@ -967,6 +967,10 @@ fn main() {
             .unwrap_or_default();
         LAST_PANIC_LOC.with(|l| *l.borrow_mut() = loc);
     }));
+}
+
+fn main() {
+    install_hook();
     let mut text = String::new();
     let args: Vec<String> = std::env::args().collect();
     if args.len() > 1 {
@@ -974,13 +978,57 @@ fn main() {
     } else {
         std::io::stdin().read_to_string(&mut text).unwrap();
     }
-    let cases = read_cases(&text);
+    let cases = std::sync::Arc::new(read_cases(&text));
+    let limit_ms: u64 = std::env::var("VERIF_CASE_TIMEOUT_MS")
+        .ok()
+        .and_then(|s| s.parse().ok())
+        .unwrap_or(4000);
     let stdout = std::io::stdout();
     use std::io::Write;
     let mut lock = stdout.lock();
-    for c in &cases {
-        let s = run_case(c);
-        lock.write_all(s.as_bytes()).unwrap();
-        lock.flush().unwrap();
+    // Watchdog: cases run on a worker thread; a case that does not finish within the limit
+    // (a `while` that never ends without yielding a row, a next() that spins) is reported
+    // as HANG and a fresh worker continues with the following case.
+    let mut start = 0usize;
+    while start < cases.len() {
+        let (tx, rx) = std::sync::mpsc::channel::<(usize, String)>();
+        let cs = cases.clone();
+        let from = start;
+        std::thread::Builder::new()
+            .stack_size(64 << 20)
+            .spawn(move || {
+                install_hook();
+                for i in from..cs.len() {
+                    let s = run_case(&cs[i]);
+                    if tx.send((i, s)).is_err() {
+                        return;
+                    }
+                }
+            })
+            .unwrap();
+        let mut next = start;
+        loop {
+            if next >= cases.len() {
+                start = next;
+                break;
+            }
+            match rx.recv_timeout(std::time::Duration::from_millis(limit_ms)) {
+                Ok((i, s)) => {
+                    lock.write_all(s.as_bytes()).unwrap();
+                    lock.flush().unwrap();
+                    next = i + 1;
+                }
+                Err(_) => {
+                    let id = &cases[next].id;
+                    let s = format!("CASE {id}\nHANG\nDONE {id}\n");
+                    lock.write_all(s.as_bytes()).unwrap();
+                    lock.flush().unwrap();
+                    start = next + 1;
+                    break;
+                }
+            }
+        }
     }
+    drop(lock);
+    std::process::exit(0);
 }
